@@ -6,9 +6,9 @@ DEFINITION of the answers of SelectSeries, SelectMergeProfile, ProfileTypes, Lab
 GetProfileStats and AnalyzeQuery next to a transcription of the MECHANISM (the materialized-view tables, the SQL each
 endpoint sends at table grain, the Go post-processing), parameterised by named quirks (places where the code as written
 departs from the definition).  TLC (MC_ProfSeries) enumerates every database x request of the configurations, proves
-mechanism-with-all-quirks-repaired = definition, proves that every difference between the mechanism as coded and the
-definition is accounted for by a quirk, proves the laws that tie the endpoints' definitions together, and exports the
-cases (definition's answer, as-coded answer, firing quirks).  harness/cmd/x05 concretises every case (hostile strings,
+mechanism-with-all-quirks-repaired = definition, proves that every difference between the mechanism as coded (all quirks
+but those listed in REPAIRED below) or the mechanism with every quirk and the definition is accounted for by a quirk, proves the laws that tie the endpoints' definitions together, and exports the
+cases (definition's answer, as-coded answer, firing quirks, and the answer with the repaired quirks switched on again).  harness/cmd/x05 concretises every case (hostile strings,
 real nanosecond instants), pushes the profiles through the REAL /ingest route (multipart, binary raw / gzip) of
 e2e.World, queries the REAL querier routes (JSON and protobuf), decodes (the merged pprof with google/pprof) and compares
 with the definition.  Verdicts only come from answers of the real code."""
@@ -24,8 +24,14 @@ import vlib
 SPECDIR = os.path.join(vlib.SPEC, 'query')
 INVS = 'AllChecks'
 NAMED_INVS = 'MechEqDef QuirksExplain Laws'
-ALL_QUIRKS = ['avg_sql', 'type_cross', 'dup_series', 'groupby_order', 'dup_labelsets', 'names_ignored', 'merge_lineless',
+ALL_QUIRKS = ['avg_sql', 'avg_per_sample', 'type_cross', 'dup_series', 'groupby_order', 'dup_labelsets', 'names_ignored', 'merge_lineless',
               'merge_emptystack', 'merge_incompatible', 'stale_unit', 'second_matcher_lost']
+# The believed state of the code: the quirks of ProfSeries!AllQuirks that have been REPAIRED in /repo.  The as-coded mechanism
+# of the specification is Mech(AllQuirks minus these) (MC_ProfSeries!AsCoded); a repaired quirk stays in the specification
+# as a mutation: TLC still says where it would fire (coverage 'quirks'), the real code must answer the definition there,
+# and an answer that equals the prediction WITH the quirk is reported under the quirk's signature again.
+REPAIRED = ['avg_sql', 'type_cross', 'dup_series', 'groupby_order', 'dup_labelsets', 'names_ignored', 'second_matcher_lost',
+            'merge_lineless', 'merge_emptystack', 'stale_unit']
 
 CFG = '''SPECIFICATION Spec
 CONSTANTS
@@ -46,6 +52,7 @@ CONSTANTS
   Plan = "%(plan)s"
   ExportMod = %(mod)d
   ExportSeed = %(seed)d
+  Repaired = %(repaired)s
 INVARIANTS %(invs)s
 CHECK_DEADLOCK FALSE
 '''
@@ -95,6 +102,7 @@ def _model_check(name, c, sd, timeout):
     d.update(c)
     d['seed'] = vlib.seed() % max(1, d['mod'])
     d['invs'] = INVS
+    d['repaired'] = '{' + ', '.join('"%s"' % q for q in REPAIRED) + '}'
     cfgp = os.path.join(sd, 'MC_ProfSeries_%s.cfg' % name)
     open(cfgp, 'w').write(CFG % d)
     res = vlib.tlc(SPECDIR, 'MC_ProfSeries.tla', os.path.basename(cfgp), workers=d['workers'], timeout=timeout, copy_extra=[cfgp])
@@ -120,7 +128,7 @@ def _model_check(name, c, sd, timeout):
             except ValueError as e:
                 raise vlib.Infra('cannot parse an exported case of %s: %s: %s' % (name, e, line[:300]))
             case['cfg'] = name
-            for q in case['fired']:
+            for q in set(case['fired']) | set(case['mutfired']):     # as coded, or in the mechanism with every quirk
                 fired[q] = fired.get(q, 0) + 1
             cases.append((json.dumps(case['db'], sort_keys=True), json.dumps(case['req'], sort_keys=True), json.dumps(case)))
         if not cases:
@@ -128,7 +136,7 @@ def _model_check(name, c, sd, timeout):
         cases.sort()    # TLC's workers print in a scheduling-dependent order; the cases of one database become adjacent
         return {'config': name, 'bounds': {k: v for k, v in d.items() if k not in ('workers', 'invs')}, 'states': res.get('distinct', 0),
                 'transitions': res.get('generated', 0), 'exported': len(cases), 'wall_s': round(res['wall'], 1),
-                'cases_in_which_a_quirk_fires': fired, 'cases': cases}
+                'cases_in_which_a_quirk_fires': fired, 'cases': cases}     # as coded, or as a mutation
     finally:
         vlib.tlc_cleanup(res)
 
@@ -254,6 +262,9 @@ def run(tier):
                               json.dumps((m.get('expected') or {}).get('Canon') if isinstance(m.get('expected'), dict) else m.get('expected'), ensure_ascii=False)[:400],
                               json.dumps({k: v for k, v in m['observed'].items() if k in ('status', 'error_kind', 'answer', 'units', 'raw')} if isinstance(m.get('observed'), dict) else m.get('observed'), ensure_ascii=False)[:500])})
         repaired = sorted(q for q in ALL_QUIRKS if maps['fired_cases'].get(q) and not maps['fired_observed'].get(q))
+        unknown = [q for q in REPAIRED if q not in ALL_QUIRKS]
+        if unknown:
+            raise vlib.Infra('REPAIRED names quirks the specification does not have: %s' % unknown)
         for mc in mcs:
             mc.pop('cases', None)
         cov = {'states': sum(mc['states'] for mc in mcs), 'transitions': sum(mc['transitions'] for mc in mcs),
@@ -268,6 +279,7 @@ def run(tier):
                               'of_those_the_real_code_answers_as_coded': maps['fired_observed'].get(q, 0),
                               'of_those_the_real_code_answers_the_definition': maps['fired_silent'].get(q, 0)} for q in ALL_QUIRKS},
                'quirks_the_code_no_longer_exhibits': repaired,
+               'quirks_believed_repaired': sorted(REPAIRED),
                'mismatch_counts': maps['mismatch_counts'], 'aux_not_part_of_X05': aux,
                'checker_cmd': 'tlc MC_ProfSeries (x%d configs) -> x05 run (x%d processes)' % (len(mcs), len(shards))}
         return {'level': 'model_checking', 'coverage': cov, 'violations': viols,
